@@ -614,6 +614,28 @@ func c07Run(r *Run) {
 	}
 	sort.Strings(names)
 	r.stat("access_path_node_types", len(names))
+	// whether a member may be used depends on who asks: an access node that remembers what it resolved
+	// for one caller (a per-call-site cache) hands it to the next caller without the modifier test
+	{
+		tabled := map[string]bool{}
+		for _, e := range nodeStateTable {
+			tabled[e[0]] = true
+		}
+		writes, examined := evalClosureFieldWrites(npkg)
+		bad := map[string]bool{}
+		for _, w := range writes {
+			if !nodesSeen[w.typeName] || tabled[w.typeName+"."+w.field] {
+				continue
+			}
+			bad[w.typeName] = true
+			r.bad("node.("+w.typeName+")#remembers-resolution:"+w.field, w.pos, "the access node stores "+w.field+" while it is evaluated: a member resolved for one caller is kept for the next one, whose right to see it was never tested")
+		}
+		for _, tn := range names {
+			if pos, ok := examined[tn]; ok && !bad[tn] {
+				r.ok("node.("+tn+")#resolves-for-each-caller", pos, "the access node keeps nothing between evaluations")
+			}
+		}
+	}
 
 	// a gate that receives the modifier as a value (table-driven form): one predicate call decides for
 	// every restricted modifier, so private and protected cannot differ
